@@ -1,5 +1,6 @@
 import RodbusModel.Props.C10
 import RodbusModel.Lemmas.ClientStale
+import RodbusModel.Lemmas.ClientStaleRtu
 /-
   C11  The client keeps at most one request outstanding, transmits requests in submission order and
   stamps each TCP request with a 16-bit transaction id that advances by one for every request taken
@@ -183,6 +184,30 @@ theorem stale_frame_never_accepted_mbap (s : State Mbap.PState) (m : Nat) (r : R
     (∀ fuel, readerPoll mbap fuel t.pst t.rb [] = (.blocked, t.pst, t.rb, []))
       ∧ ((getMock t m').rx = [] → t.now < dl → tickInflight mbap t m' r' tx dl = none) :=
   stale_frame_never_accepted mbap mbap_discardComplete s m r m' r' tx dl h
+
+/-- the same for RTU (response parser), from every parser state the reader can be in between
+    calls (`Rtu.StOk`: the initial state, and preserved by the reader and by the discard loop:
+    `rtu_readerPoll_stok`, `rtu_discard_stok`) -/
+theorem stale_frame_never_accepted_rtu (s : State Rtu.PState) (hst : Rtu.StOk s.pst) (m : Nat)
+    (r : Req) (m' : Nat) (r' : Req) (tx dl : Nat)
+    (h : (startRequest rtu s m r).pos = .inflight m' r' tx dl) :
+    let t := startRequest rtu s m r
+    (∀ fuel, readerPoll rtu fuel t.pst t.rb [] = (.blocked, t.pst, t.rb, []))
+      ∧ ((getMock t m').rx = [] → t.now < dl → tickInflight rtu t m' r' tx dl = none) := by
+  intro t
+  have hpar := startRequest_reader_at rtu s m (rtu_discardCompleteAt s.pst s.rb hst) r m' r' tx dl h
+  refine ⟨fun fuel => readerPoll_blocked rtu fuel _ _ hpar, ?_⟩
+  intro hrx hnow
+  have hpoll : (pollReader rtu t m').1 = .blocked := by
+    unfold pollReader
+    simp only [hrx]
+    rw [readerPoll_blocked rtu _ _ _ hpar]
+  generalize hpr : pollReader rtu t m' = pr at hpoll
+  obtain ⟨rr, s'⟩ := pr
+  simp only [] at hpoll
+  subst hpoll
+  rw [tickInflight_before rtu t s' m' r' tx dl .blocked hpr hnow]
+  simp [hrx]
 
 /-- malformed bytes found in the buffer when a request is about to be written fail that request
     with the framing error (nothing is transmitted; by `error_meaning_transport` the session ends) -/
